@@ -69,6 +69,10 @@ TECHNIQUE += '; the same theorem for the incompressible solid classes against th
 EXPLANATION += ' R05.12 no integer-literal power (negative, or >= 3) is taken of a quantity that stays an integer when the arguments are integers (numba types arithmetic by its arguments: 0 for a negative power, silent int64 wrap-around for a large one).'
 TECHNIQUE += '; syntactic type flow in numba-compiled kernels (integer-literal powers of integer-typed arguments)'
 
+EXPLANATION += ' R05.13 the sensitivity kernels called for two grids with the same slice count and end points in one interpreter state return, for the second grid, what a fresh state returns.'
+
+TECHNIQUE += '; two successive kernel calls in one interpreter state (module-level state persists) against a fresh state'
+
 def run(chk):
     repo = Repo(chk.repo)
     # R05.12: integer arguments are values like any other; numba keeps them integers until they meet a float (an integer-literal power is taken first)
